@@ -1044,10 +1044,11 @@ func (e *compiledBracketExpr) emitSetter(valueExpr compiledExpr, putOnStack bool
 }
 
 func (e *compiledBracketExpr) emitUnary(prepare, body func(), postfix, putOnStack bool) {
+	// the key is read by getElem and again by setElem: an object key must be converted only once
 	if !putOnStack {
 		e.left.emitGetter(true)
 		e.member.emitGetter(true)
-		e.c.emit(dupLast(2), getElem)
+		e.c.emit(_toPropertyKeyObj{}, dupLast(2), getElem)
 		body()
 		e.addSrcMap()
 		if e.c.scope.strict {
@@ -1059,7 +1060,7 @@ func (e *compiledBracketExpr) emitUnary(prepare, body func(), postfix, putOnStac
 		if !postfix {
 			e.left.emitGetter(true)
 			e.member.emitGetter(true)
-			e.c.emit(dupLast(2), getElem)
+			e.c.emit(_toPropertyKeyObj{}, dupLast(2), getElem)
 			if prepare != nil {
 				prepare()
 			}
@@ -1074,7 +1075,7 @@ func (e *compiledBracketExpr) emitUnary(prepare, body func(), postfix, putOnStac
 			e.c.emit(loadUndef)
 			e.left.emitGetter(true)
 			e.member.emitGetter(true)
-			e.c.emit(dupLast(2), getElem)
+			e.c.emit(_toPropertyKeyObj{}, dupLast(2), getElem)
 			if prepare != nil {
 				prepare()
 			}
